@@ -271,6 +271,8 @@ class C22(Property):
         return lines, expect, meta
 
     def explore(self, ctx: Ctx) -> None:
+        from sfv.rt.shfake import limit_failures
+        limit_failures(ctx)
         self._setup(ctx)
         rng = ctx.rng
         big = ctx.tier == "thorough" or ctx.mode == "search"
